@@ -73,6 +73,10 @@ fn client_received_a_message(
                 if opt_parent.is_none() || opt_parent.unwrap().get() != c_p_id {
                     entity.set_parent(c_p_id);
                     world.entity_mut(c_p_id).add_child(c_e_id);
+                    world
+                        .resource_mut::<SyncTrackerRes>()
+                        .pushed_parent_from_network
+                        .insert(e_id, p_id);
                 }
             });
         }
